@@ -3,7 +3,9 @@ package main
 import (
 	"fmt"
 	"go/ast"
+	"go/token"
 	"go/types"
+	"os"
 	"strings"
 
 	"safecheck/relang"
@@ -48,6 +50,141 @@ func rangeTableSetOf(p *Program, g *ssa.Global) (*relang.Set, []string, error) {
 	return evalRangeTable(p, pk, init, 0)
 }
 
+// storesToGlobal: the stores to g outside the synthetic package initialiser.
+func storesToGlobal(p *Program, g *ssa.Global) []*ssa.Store {
+	var out []*ssa.Store
+	var visit func(f *ssa.Function)
+	visit = func(f *ssa.Function) {
+		for _, b := range f.Blocks {
+			for _, in := range b.Instrs {
+				if st, ok := in.(*ssa.Store); ok && st.Addr == ssa.Value(g) {
+					if !(f.Synthetic != "" && f.Name() == "init") {
+						out = append(out, st)
+					}
+				}
+			}
+		}
+		for _, an := range f.AnonFuncs {
+			visit(an)
+		}
+	}
+	for _, f := range p.SrcFuncs() {
+		if f.Parent() == nil {
+			visit(f)
+		}
+	}
+	return out
+}
+
+// tableSetOfValue: the code points of the *unicode.RangeTable that v denotes: a package-level table (of the
+// repository or of the installed unicode package) with a literal or rangetable.Merge initialiser and no other
+// assignment; a package-level variable without initialiser that is assigned exactly once (a table built on first
+// use); the result of a parameterless function of the repository whose returns all denote the same set;
+// rangetable.Merge of such; a &unicode.RangeTable{…} literal.
+func tableSetOfValue(p *Program, v ssa.Value, depth int) (*relang.Set, []string, error) {
+	if depth > 6 {
+		return nil, nil, fmt.Errorf("table reference chain too deep")
+	}
+	switch x := v.(type) {
+	case *ssa.UnOp:
+		g, ok := x.X.(*ssa.Global)
+		if !ok || g.Pkg == nil {
+			break
+		}
+		path := g.Pkg.Pkg.Path()
+		if !strings.HasPrefix(path, modulePath) {
+			dpk := p.All[path]
+			if dpk == nil {
+				return nil, nil, fmt.Errorf("package %s not loaded", path)
+			}
+			if init, _ := p.rawPkgVarInit(dpk, g.Name()); init != nil {
+				return evalRangeTable(p, dpk, init, 0)
+			}
+			return nil, nil, fmt.Errorf("no initialiser of %s.%s", path, g.Name())
+		}
+		stores := storesToGlobal(p, g)
+		if init, _ := p.PkgVarInit(relOf(path), cname(g)); init != nil {
+			if len(stores) > 0 {
+				return nil, nil, fmt.Errorf("table %s is reassigned at %s", g.Name(), p.Pos(stores[0].Pos()))
+			}
+			return rangeTableSetOf(p, g)
+		}
+		if len(stores) != 1 {
+			return nil, nil, fmt.Errorf("table %s has no initialiser and %d assignments", g.Name(), len(stores))
+		}
+		return tableSetOfValue(p, stores[0].Val, depth+1)
+	case *ssa.Call:
+		g := staticCallee(x.Common())
+		if g == nil {
+			break
+		}
+		if fnName(g) == "golang.org/x/text/unicode/rangetable.Merge" && len(x.Common().Args) == 1 {
+			args, ok := variadicArgs(x.Common().Args[0])
+			if !ok {
+				return nil, nil, fmt.Errorf("rangetable.Merge of a list that is not spelled out")
+			}
+			T := &relang.Set{}
+			var probs []string
+			for _, a := range args {
+				s, pr, err := tableSetOfValue(p, a, depth+1)
+				if err != nil {
+					return nil, nil, err
+				}
+				T = T.Union(s)
+				probs = append(probs, pr...)
+			}
+			return T, probs, nil
+		}
+		if g.Blocks != nil && g.Pkg != nil && strings.HasPrefix(g.Pkg.Pkg.Path(), modulePath) && len(x.Common().Args) == 0 {
+			var T *relang.Set
+			var probs []string
+			for _, ret := range Returns(g) {
+				if len(ret.Results) != 1 {
+					return nil, nil, fmt.Errorf("%s does not return one table", fnName(g))
+				}
+				s, pr, err := tableSetOfValue(p, ret.Results[0], depth+1)
+				if err != nil {
+					return nil, nil, err
+				}
+				if T != nil && !T.Equal(s) {
+					return nil, nil, fmt.Errorf("%s returns different tables", fnName(g))
+				}
+				T, probs = s, append(probs, pr...)
+			}
+			if T == nil {
+				return nil, nil, fmt.Errorf("%s does not return", fnName(g))
+			}
+			return T, probs, nil
+		}
+	case *ssa.Alloc:
+		// &unicode.RangeTable{…}: the literal at this position
+		if x.Parent() == nil || x.Parent().Pkg == nil {
+			break
+		}
+		pk := p.All[x.Parent().Pkg.Pkg.Path()]
+		if pk == nil {
+			break
+		}
+		var lit *ast.CompositeLit
+		for _, f := range pk.Syntax {
+			if f.Pos() <= x.Pos() && x.Pos() <= f.End() {
+				ast.Inspect(f, func(n ast.Node) bool {
+					if cl, ok := n.(*ast.CompositeLit); ok && cl.Lbrace == x.Pos() {
+						lit = cl
+					}
+					return lit == nil
+				})
+			}
+		}
+		if lit == nil {
+			return nil, nil, fmt.Errorf("table literal not found at %s", p.Pos(x.Pos()))
+		}
+		// the literal must be all there is to the value: no store into it afterwards from outside the literal
+		return evalRangeTable(p, pk, lit, 0)
+	}
+	return nil, nil, fmt.Errorf("table expression %s not understood", v.String())
+}
+
 type runeMap struct {
 	Replaced *relang.Set // runes written as U+FFFD
 	Kept     *relang.Set // runes written as themselves
@@ -64,19 +201,13 @@ func coercerRuneMap(p *Program, fn *ssa.Function) (*runeMap, string) {
 		if g == nil || fnName(g) != "unicode.Is" || len(c.Common().Args) != 2 {
 			return nil, false
 		}
-		u, ok := c.Common().Args[0].(*ssa.UnOp)
-		if !ok {
-			return nil, false
-		}
-		gl, ok := u.X.(*ssa.Global)
-		if !ok {
-			return nil, false
-		}
-		set, probs, err := rangeTableSetOf(p, gl)
+		set, probs, err := tableSetOfValue(p, c.Common().Args[0], 0)
 		if err != nil {
+			if os.Getenv("C10_DEBUG") != "" {
+				fmt.Println("C10 table:", err)
+			}
 			return nil, false
 		}
-		rm.Tables = append(rm.Tables, gl)
 		rm.Probs = append(rm.Probs, probs...)
 		return set, true
 	}
@@ -194,11 +325,32 @@ func coercerRuneMap(p *Program, fn *ssa.Function) (*runeMap, string) {
 			}
 		}
 	}
+	// Form D: the runes of the input are replaced in place: R := []rune(s); for i := 0; i < len(R); i++ { … R[i] = c … }; string(R)
+	var inPlace ssa.Value // R
+	var inPlaceIdx *ssa.Phi
+	if r == nil {
+		if R, idx, load, why := inPlaceRuneLoop(fn); R != nil {
+			inPlace, inPlaceIdx, r, header = R, idx, load, idx.Block()
+			rm.Form = "the runes of []rune(input) are visited once each by an index loop and replaced in place"
+		} else if why != "" {
+			return nil, why
+		}
+	}
 	if r == nil || header == nil {
-		return nil, "no loop over the runes of the input found (range, utf8.DecodeRuneInString) and no strings.Map"
+		return nil, "no loop over the runes of the input found (range, utf8.DecodeRuneInString, []rune(input) by index) and no strings.Map"
 	}
 	in := loopBlocks(header)
 	isEmit := func(b *ssa.BasicBlock) (ssa.Value, bool) {
+		if inPlace != nil {
+			for _, ins := range b.Instrs {
+				if st, ok := ins.(*ssa.Store); ok {
+					if ia, ok := st.Addr.(*ssa.IndexAddr); ok && ia.X == inPlace && ia.Index == ssa.Value(inPlaceIdx) {
+						return st.Val, true
+					}
+				}
+			}
+			return nil, false
+		}
 		for _, ins := range b.Instrs {
 			c, ok := ins.(*ssa.Call)
 			if !ok {
@@ -225,7 +377,9 @@ func coercerRuneMap(p *Program, fn *ssa.Function) (*runeMap, string) {
 	}
 	// where the body starts: the block that holds r (range: the successor of the header that is in the loop)
 	start := r.(ssa.Instruction).Block()
-	if _, isRange := r.(*ssa.Extract).Tuple.(*ssa.Next); isRange {
+	if ex, isEx := r.(*ssa.Extract); !isEx {
+		// in place: the body starts where the element is read
+	} else if _, isRange := ex.Tuple.(*ssa.Next); isRange {
 		for _, su := range header.Succs {
 			if in[su] {
 				start = su
@@ -284,6 +438,10 @@ func coercerRuneMap(p *Program, fn *ssa.Function) (*runeMap, string) {
 				}
 			}
 		case "cont":
+			if inPlace != nil {
+				rm.Kept = rm.Kept.Union(l.Set) // nothing stored: the element stays what it was
+				continue
+			}
 			return nil, fmt.Sprintf("for the runes %s an iteration writes nothing", l.Set)
 		default:
 			return nil, "unexpected end of an iteration: " + l.Effect
@@ -293,6 +451,116 @@ func coercerRuneMap(p *Program, fn *ssa.Function) (*runeMap, string) {
 		return nil, "the loop writes no rune"
 	}
 	return rm, ""
+}
+
+// inPlaceRuneLoop recognises
+//
+//	R := []rune(s); for i := 0; i < len(R); i++ { r := R[i]; …; R[i] = c }; return string(R)
+//
+// (s the parameter): R is only indexed by the loop index, measured, and converted back for the result; the index
+// starts at 0, advances by one on every way round the loop, and the loop runs while i < len(R).
+func inPlaceRuneLoop(fn *ssa.Function) (ssa.Value, *ssa.Phi, ssa.Value, string) {
+	var R *ssa.Convert
+	for _, b := range fn.Blocks {
+		for _, in := range b.Instrs {
+			if c, ok := in.(*ssa.Convert); ok && c.X == ssa.Value(fn.Params[0]) {
+				if sl, ok := c.Type().Underlying().(*types.Slice); ok {
+					if bt, ok := sl.Elem().Underlying().(*types.Basic); ok && bt.Kind() == types.Int32 {
+						if R != nil {
+							return nil, nil, nil, ""
+						}
+						R = c
+					}
+				}
+			}
+		}
+	}
+	if R == nil {
+		return nil, nil, nil, ""
+	}
+	var idx *ssa.Phi
+	var load ssa.Value
+	for _, ref := range *R.Referrers() {
+		switch x := ref.(type) {
+		case *ssa.IndexAddr:
+			ph, ok := x.Index.(*ssa.Phi)
+			if !ok || (idx != nil && ph != idx) {
+				return nil, nil, nil, "[]rune(input) is indexed by something other than one loop index"
+			}
+			idx = ph
+			for _, r2 := range *x.Referrers() {
+				switch y := r2.(type) {
+				case *ssa.UnOp:
+					if load != nil && load != ssa.Value(y) {
+						return nil, nil, nil, "the current element of []rune(input) is read more than once"
+					}
+					load = y
+				case *ssa.Store:
+					if y.Addr != ssa.Value(x) {
+						return nil, nil, nil, "an element address of []rune(input) escapes"
+					}
+				case *ssa.DebugRef:
+				default:
+					return nil, nil, nil, "an element address of []rune(input) escapes"
+				}
+			}
+		case *ssa.Convert:
+			if !isStringish(x.Type()) {
+				return nil, nil, nil, "[]rune(input) is converted to something other than a string"
+			}
+		case *ssa.Call:
+			if bi, ok := x.Common().Value.(*ssa.Builtin); !ok || bi.Name() != "len" {
+				return nil, nil, nil, "[]rune(input) is handed to " + x.String()
+			}
+		case *ssa.DebugRef:
+		default:
+			return nil, nil, nil, "[]rune(input) is used in a way the map does not follow: " + ref.String()
+		}
+	}
+	if idx == nil || load == nil {
+		return nil, nil, nil, ""
+	}
+	h := idx.Block()
+	in := loopBlocks(h)
+	for i, e := range idx.Edges {
+		if !in[h.Preds[i]] {
+			if k, ok := constInt(e); !ok || k != 0 {
+				return nil, nil, nil, "the index over []rune(input) does not start at 0"
+			}
+			continue
+		}
+		bo, ok := e.(*ssa.BinOp)
+		k, okk := int64(0), false
+		if ok {
+			k, okk = constInt(bo.Y)
+		}
+		if !ok || bo.Op != token.ADD || bo.X != ssa.Value(idx) || !okk || k != 1 {
+			return nil, nil, nil, "the index over []rune(input) does not advance by one"
+		}
+	}
+	iff, ok := h.Instrs[len(h.Instrs)-1].(*ssa.If)
+	if !ok {
+		return nil, nil, nil, "the loop over []rune(input) has no bound"
+	}
+	bo, ok := iff.Cond.(*ssa.BinOp)
+	if !ok || bo.Op != token.LSS || bo.X != ssa.Value(idx) || !in[h.Succs[0]] {
+		return nil, nil, nil, "the loop over []rune(input) does not run while i < len"
+	}
+	if lv, ok := isLenOf(bo.Y); !ok || lv != ssa.Value(R) {
+		return nil, nil, nil, "the loop over []rune(input) does not run while i < len"
+	}
+	// every result is string(R) after the loop, or the input itself
+	for _, ret := range Returns(fn) {
+		v := ret.Results[0]
+		if v == ssa.Value(fn.Params[0]) {
+			continue
+		}
+		c, ok := v.(*ssa.Convert)
+		if !ok || c.X != ssa.Value(R) || in[ret.Block()] {
+			return nil, nil, nil, "the result is not string([]rune(input)) after the loop"
+		}
+	}
+	return R, idx, load, ""
 }
 
 // checkCoercerByMap decides C10.R2/R3 from the rune map.
